@@ -6,7 +6,9 @@ import (
 	"fmt"
 	"io"
 	"net"
+	"runtime"
 	"sync"
+	"sync/atomic"
 	"testing"
 	"time"
 
@@ -30,6 +32,8 @@ type C05Spec struct {
 	// Stress > 0: no scheduler; this many real goroutines call Close at the same moment, Rounds times
 	Stress int `json:"stress,omitempty"`
 	Rounds int `json:"rounds,omitempty"`
+	// ConnectStress > 0: no scheduler; this many real goroutines call Bootstrap.Connect at the same moment, Rounds times
+	ConnectStress int `json:"connect_stress,omitempty"`
 }
 
 type c05Probe struct {
@@ -109,6 +113,11 @@ func genC05(t *rapid.T) E1Case {
 	if rapid.IntRange(0, 39).Draw(t, "stress") == 17 { // a mid-range value: rapid favours the ends of a range
 		// windows without any yield point (inside the closer election) are only reachable with real parallelism
 		c.C05 = &C05Spec{Stress: rapid.IntRange(2, 8).Draw(t, "closers"), Rounds: 150}
+		return c
+	}
+	if rapid.IntRange(0, 199).Draw(t, "connectstress") == 113 {
+		// channels created at the same moment through one bootstrap (its defaults: sequence ids, the channel holder)
+		c.C05 = &C05Spec{ConnectStress: rapid.IntRange(2, 8).Draw(t, "connectors"), Rounds: 300}
 		return c
 	}
 	spec := &C05Spec{SchedSetup: rapid.IntRange(0, 2).Draw(t, "schedsetup") != 0}
@@ -254,9 +263,135 @@ func runC05Stress(c E1Case) (out core.Outcome) {
 	return
 }
 
+// c05ConnRec is the application's handler on a channel of the connect stress.
+type c05ConnRec struct {
+	active, inactive, exceptions int32
+	firstEx                      atomic.Value
+}
+
+func (h *c05ConnRec) HandleActive(ctx netty.ActiveContext) {
+	atomic.AddInt32(&h.active, 1)
+	ctx.HandleActive()
+}
+
+func (h *c05ConnRec) HandleInactive(ctx netty.InactiveContext, ex netty.Exception) {
+	atomic.AddInt32(&h.inactive, 1)
+	ctx.HandleInactive(ex)
+}
+
+func (h *c05ConnRec) HandleException(ctx netty.ExceptionContext, ex netty.Exception) {
+	if atomic.AddInt32(&h.exceptions, 1) == 1 {
+		h.firstEx.Store(fmt.Sprint(ex))
+	}
+}
+
+// runC05ConnectStress: real goroutines connect through one bootstrap at the same moment. Every channel that Connect
+// hands out has had its active event exactly once — behind the bootstrap's own first handler, too — and, once closed,
+// its inactive event exactly once.
+func runC05ConnectStress(c E1Case) (out core.Outcome) {
+	out.Classes = []string{"connect-stress", "kind:" + c.Kind}
+	workers := c.C05.ConnectStress
+	factory := &mock.Factory{NewT: func() *mock.Transport { return mock.NewTransport(nil, false, nil) }}
+	chFactory := netty.NewChannel()
+	if c.Kind != "sync" {
+		chFactory = netty.NewAsyncWriteChannel(imax(1, c.Queue), c.Kind == "qblock")
+	}
+	// the pipeline factory is the first thing a bootstrap calls for a new channel: it lines the connectors of a round
+	// up (timing only; it gives up after 20 ms and never waits for anything but the other connectors)
+	var arrived int64
+	pf := func() netty.Pipeline {
+		n := atomic.AddInt64(&arrived, 1)
+		target := ((n-1)/int64(workers) + 1) * int64(workers)
+		begin := time.Now()
+		for spins := 0; atomic.LoadInt64(&arrived) < target; spins++ {
+			if spins > 20000 {
+				if time.Since(begin) > 20*time.Millisecond {
+					break
+				}
+				runtime.Gosched()
+			}
+		}
+		return netty.NewPipeline()
+	}
+	bs := netty.NewBootstrap(netty.WithTransport(factory), netty.WithChannel(chFactory), netty.WithPipeline(pf),
+		netty.WithClientInitializer(func(ch netty.Channel) {
+			rec := &c05ConnRec{}
+			ch.SetAttachment(rec)
+			ch.Pipeline().AddLast(rec)
+		}))
+	defer bs.Shutdown()
+	type res struct {
+		ch       netty.Channel
+		err      error
+		actAtRet int32
+	}
+	for round := 0; round < imax(1, c.C05.Rounds); round++ {
+		results := make([]res, workers)
+		var wg sync.WaitGroup
+		start := make(chan struct{})
+		for i := 0; i < workers; i++ {
+			wg.Add(1)
+			go func(i int) {
+				defer wg.Done()
+				<-start
+				ch, err := bs.Connect("mock://peer")
+				results[i] = res{ch: ch, err: err}
+				if err == nil && ch != nil {
+					if rec, ok := ch.Attachment().(*c05ConnRec); ok {
+						results[i].actAtRet = atomic.LoadInt32(&rec.active)
+					}
+				}
+			}(i)
+		}
+		close(start)
+		wg.Wait()
+		ids := map[int64]int{}
+		for i, r := range results {
+			if r.err != nil || r.ch == nil {
+				out.Inconclusive = fmt.Sprintf("connect stress: Connect over the mock factory failed: %v", r.err)
+				return
+			}
+			rec, _ := r.ch.Attachment().(*c05ConnRec)
+			if rec == nil {
+				out.Inconclusive = "connect stress: the attachment set by the initializer is gone"
+				return
+			}
+			if r.actAtRet != 1 {
+				ex, _ := rec.firstEx.Load().(string)
+				out.Violation = core.Viol("C05/active-not-exactly-once", "%d goroutines connected through one bootstrap at once (round %d): when Connect handed out channel %d (connector %d), its active event had reached the application's handler %d times, want 1 (exceptions seen: %d, first: %q)", workers, round, r.ch.ID(), i, r.actAtRet, atomic.LoadInt32(&rec.exceptions), ex)
+				return
+			}
+			if j, dup := ids[r.ch.ID()]; dup {
+				// not part of the statement by itself, but it is what breaks the holder: say so in the report of what follows
+				out.Classes = append(out.Classes, fmt.Sprintf("duplicate-id-seen:%d/%d", j, i))
+			}
+			ids[r.ch.ID()] = i
+		}
+		for _, r := range results {
+			r.ch.Close(nil)
+		}
+		for i, r := range results {
+			rec := r.ch.Attachment().(*c05ConnRec)
+			if a, n := atomic.LoadInt32(&rec.active), atomic.LoadInt32(&rec.inactive); a != 1 || n != 1 {
+				out.Violation = core.Viol("C05/connect-stress-event-counts", "%d goroutines connected at once (round %d): channel %d (connector %d) closed: active delivered %d times, inactive %d times, want 1 and 1", workers, round, r.ch.ID(), i, a, n)
+				return
+			}
+			if r.ch.IsActive() {
+				out.Violation = core.Viol("C05/active-after-close-returned", "connect stress: IsActive after Close returned")
+				return
+			}
+		}
+	}
+	out.NonTrivial = true
+	return
+}
+
 func runC05(c E1Case) (out core.Outcome) {
 	if c.C05 != nil && c.C05.Stress > 0 {
 		return runC05Stress(c)
+	}
+	if c.C05 != nil && c.C05.ConnectStress > 0 {
+		return runC05ConnectStress(c)
 	}
 	var extra []netty.Handler
 	if c.C05 != nil && c.C05.Idle {
